@@ -16,6 +16,7 @@ var verifHarnesses = map[string]func(a []int){
 	"H_C12":            func(a []int) { H_C12(a[0], a[1], a[2], a[3]) },
 	"H_C12_sched":      func(a []int) { H_C12_sched(a[0], a[1], a[2], a[3], a[4]) },
 	"H_C13_conc":       func(a []int) { H_C13_conc(a[0], a[1], a[2], a[3]) },
+	"H_C13_sched":      func(a []int) { H_C13_sched(a[0], a[1], a[2], a[3]) },
 	"H_C13_read":       func(a []int) { H_C13_read(a[0], a[1]) },
 	"H_C19_route":      func(a []int) { H_C19_route(a[0], a[1]) },
 	"H_C19_cors":       func(a []int) { H_C19_cors(a[0]) },
